@@ -46,3 +46,23 @@ package utils
 //@   modifies nothing
 //@   ensures[C05.eff_fee,C04.eff_fee] result != nil && bigval[result] == min(txTipCap(tx) + iv(baseFee), txFeeCap(tx)) * txGas(tx)
 //@   panics never
+
+// ---------------------------------------------------------------------------------------------
+// validation.go — the destroy guard (C15)
+// ---------------------------------------------------------------------------------------------
+//@ import sdk "github.com/cosmos/cosmos-sdk/types"
+//@ import vesting "github.com/cosmos/cosmos-sdk/x/auth/vesting/exported"
+//@ import vestingtypes "github.com/cosmos/cosmos-sdk/x/auth/vesting/types"
+
+// an account object is a vesting account (of any kind)
+//@ ghost macro accIsVesting(account sdk.AccountI) bool = typeof(account) == type(*vestingtypes.BaseVestingAccount) || implements(account, type(vesting.VestingAccount))
+
+// The guard as the code implements it: module accounts are never destroyable, other non-vesting accounts always are; for
+// a vesting account the answer depends on the WALL CLOCK (time.Now()), which this function reads itself — it has no
+// block-time input. The block-time statement of property C15 is on the caller (x/evm/vm DestroyAccount).
+//@ func CheckIfAccountIsSuitableForDestroying(account sdk.AccountI) (destroyable bool, reason string)
+//@   modifies nothing
+//@   ensures[C15.guard_module] implements(account, type(sdk.ModuleAccountI)) ==> !destroyable
+//@   ensures[C15.guard_plain_accounts] (!implements(account, type(sdk.ModuleAccountI)) && !accIsVesting(account)) ==> destroyable
+//@   ensures[C15.guard_reason] !destroyable ==> len(reason) > 0
+//@   panics[C15.guard_nil] iff account == nil || payload(account) == nil
